@@ -335,7 +335,7 @@ func TestSoundness(t *testing.T) {
 	ev.SetChecks(ev.Scale(2400, 240000))
 	nPolicies := 6
 	extAsCall := ev.KnownOpen("C16", "nodevalue-literal-panic")
-	rapid.Check(t, func(rt *rapid.T) {
+	ev.Check(t, func(rt *rapid.T) {
 		rs := sch.GenRSchema(rt)
 		s := sch.Deresolve(rt, rs)
 		r, err := schema.NewSchemaFromAST(sch.ToAST(s)).Resolve()
@@ -649,6 +649,9 @@ func TestReplay(t *testing.T) {
 	}
 	if err != nil {
 		t.Fatal(err)
+	}
+	if ev.ReplayFuzz(t, rf, fuzzProps, nil) {
+		return
 	}
 	var c Case
 	if err := json.Unmarshal(rf.Case, &c); err != nil || c.Schema == nil || c.Policy == nil {
